@@ -112,7 +112,9 @@ def main(argv=None):
 
     mod = importlib.import_module(f"props.{pid.lower()}")
     bounds = load_json(os.path.join(HERE, "bounds.json"), {})
-    pb = bounds.get(pid, {})
+    pb = bounds.get(pid, {}) if not os.environ.get("VERIF_IGNORE_BOUNDS") else {k: v for k, v in bounds.get(pid, {}).items() if k == "outside_claim" and False}
+    if os.environ.get("VERIF_IGNORE_BOUNDS"):
+        pb = {"outside_claim": {k: v for k, v in bounds.get(pid, {}).get("outside_claim", {}).items() if "*" in k}}
     outside = pb.get("outside_claim", {})
     slow = pb.get("slow", {})
     known = [k for k in load_json(os.path.join(HERE, "known_findings.json"), {"findings": []}).get("findings", []) if k.get("property") == pid and k.get("status", "known") == "known"]
